@@ -229,25 +229,57 @@ func (ex *Executor) selectOp(st *State, f *Frame, in *ssa.Select) ctl {
 		t.Resumed = false
 		return mk(t.ResumeIdx, t.ResumeVal, t.ResumeOk)
 	}
+	// which arms are ready now? (Go picks uniformly among the ready ones: the choice is a solver-visible fork)
 	var arms []waitArm
+	var ready []int
 	for i, s := range in.States {
 		c := ex.get(st, f, s.Chan).(ChanV)
+		if c.Obj == nil {
+			continue
+		}
 		if s.Dir == types.SendOnly {
-			v := ex.get(st, f, s.Send)
-			if c.Obj != nil {
-				if ex.trySend(st, c, v) {
-					return mk(i, nil, false)
-				}
-				arms = append(arms, waitArm{Ch: c.Obj, Send: true, Val: v, Idx: i})
+			arms = append(arms, waitArm{Ch: c.Obj, Send: true, Val: ex.get(st, f, s.Send), Idx: i})
+			if ex.canSend(st, c) {
+				ready = append(ready, i)
 			}
 		} else {
-			if c.Obj != nil {
-				if v, ok, done := ex.tryRecv(st, c); done {
-					return mk(i, v, ok)
-				}
-				arms = append(arms, waitArm{Ch: c.Obj, Send: false, Idx: i})
+			arms = append(arms, waitArm{Ch: c.Obj, Send: false, Idx: i})
+			if ex.canRecv(st, c) {
+				ready = append(ready, i)
 			}
 		}
+	}
+	if len(ready) > 0 {
+		pick := ready[len(ready)-1]
+		// all choice variables are named from the log length at the start of the instruction and recorded only after
+		// the last branch (a forked sibling re-executes this instruction from the start)
+		base := len(st.ND)
+		var asked []*smt.Term
+		for k, i := range ready[:len(ready)-1] {
+			ch := smt.Var(fmt.Sprintf("nd%d_%s", base+k, "selarm"), smt.Bool)
+			take := ex.branch(st, ch)
+			asked = append(asked, ch)
+			if take {
+				pick = i
+				break
+			}
+		}
+		for _, ch := range asked {
+			st.ND = append(st.ND[:len(st.ND):len(st.ND)], NDRec{Kind: "ext-bool", Tag: "select arm choice", T: ch})
+		}
+		s := in.States[pick]
+		c := ex.get(st, f, s.Chan).(ChanV)
+		if s.Dir == types.SendOnly {
+			if !ex.trySend(st, c, ex.get(st, f, s.Send)) {
+				ex.abort("internal: ready send arm not taken")
+			}
+			return mk(pick, nil, false)
+		}
+		v, ok, done := ex.tryRecv(st, c)
+		if !done {
+			ex.abort("internal: ready recv arm not taken")
+		}
+		return mk(pick, v, ok)
 	}
 	if !in.Blocking {
 		return mk(-1, nil, false)
@@ -281,4 +313,24 @@ func (ex *Executor) canResume(st *State, t *Thread) bool {
 		return ex.blockCondChanged(st, t)
 	}
 	return false
+}
+
+func (ex *Executor) canSend(st *State, c ChanV) bool {
+	d := ex.chanData(st, c)
+	if d.Closed {
+		return true // will panic, which is reported
+	}
+	if t, _ := ex.findWaiter(st, c.Obj, false); t != nil {
+		return true
+	}
+	return len(d.Buf) < d.Cap
+}
+
+func (ex *Executor) canRecv(st *State, c ChanV) bool {
+	d := ex.chanData(st, c)
+	if len(d.Buf) > 0 || d.Closed {
+		return true
+	}
+	t, _ := ex.findWaiter(st, c.Obj, true)
+	return t != nil
 }
